@@ -108,8 +108,11 @@ func (cmd *IdleCommand) Wait() error {
 
 func (c *Client) idle() (*idleCommand, error) {
 	cmd := &idleCommand{}
-	contReq := c.registerContReq(cmd)
 	cmd.enc = c.beginCommand("IDLE", cmd)
+	// Register the continuation request while holding the encoder lock, so
+	// that it cannot be queued in front of the one of a command which is
+	// already being sent
+	contReq := c.registerContReq(cmd)
 	cmd.enc.flush()
 
 	_, err := contReq.Wait()
